@@ -21,6 +21,7 @@ func main() {
 		{Name: "mat-shape", Gen: genMatShape},
 		{Name: "mat-band", Gen: genMatBand},
 		{Name: "mat-cap", Gen: genMatCap},
+		{Name: "mat-reuse", Gen: genMatReuse},
 	}
 	vlib.Main("C07", groups...)
 }
